@@ -312,6 +312,10 @@ def scn_transformed_parameter(kind, n):
     return scn
 
 
+def tp_tensor_before(t, x):
+    return t(x)
+
+
 def scn_transformed_parameter_shared(kind, how):
     """TransformedParameter() returns the log-Jacobian for its CURRENT value when the underlying parameter is changed through ANOTHER
     consumer of the same base: how = 'view' (assignment through a ViewParameter of the base), 'sibling' (assignment to a second
@@ -337,6 +341,25 @@ def scn_transformed_parameter_shared(kind, how):
             tp = TransformedParameter("y", under, t)
             tp()
             _ = tp.tensor
+            if how in ("view_of_transformed", "put_back"):
+                # (i) a ViewParameter OVER the transformed parameter (what the command line builds for the root height of `--heights shift`):
+                # assigning through it must move the base to the inverse of the new transformed value; (ii) an earlier transformed value,
+                # kept by the caller, assigned back after the base has moved
+                t_ref = make_transform(kind)
+                if how == "view_of_transformed":
+                    y_new = t_ref(torch.cat((x1[:1], x2), -1))
+                    ViewParameter("vy", tp, slice(1, 3)).tensor = y_new[..., 1:3]
+                    want_x = t_ref.inv(torch.cat((tp_tensor_before(t_ref, x1)[..., :1], y_new[..., 1:3]), -1))
+                else:
+                    old = tp.tensor
+                    base.tensor = torch.cat((x2, x1[2:]), -1)
+                    tp.tensor = old
+                    want_x = x1
+                got = tp()
+                y_now = tp.tensor
+                return [("eq", "base_is_inverse_of_the_assigned_value", base.tensor, want_x),
+                        ("eq", "call_returns_ladj_of_current_value", got, t_ref.log_abs_det_jacobian(base.tensor, t_ref(base.tensor))),
+                        ("eq", "tensor_is_transform_of_current_value", y_now, t_ref(base.tensor))]
             view = ViewParameter("v", base, slice(0, 2))
             if how in ("view", "cat"):
                 view.tensor = x2
@@ -556,7 +579,9 @@ def obligations(tier, seed):
             add("C07.vector.%s[n=2,batch=(2,2)]" % kind, "scn_vector", (kind, 2, (2, 2)), "log-Jacobian and inverse (%s), batched rank 2" % kind)
         add("C07.transformed_parameter.%s" % kind, "scn_transformed_parameter", (kind, 3), "TransformedParameter() returns the log-Jacobian of its current value")
     for kind in ("log", "cumsumexp", "cumsumsoftplus"):
-        for how in ("view", "sibling", "cat"):
+        for how in ("view", "sibling", "cat", "view_of_transformed", "put_back"):
+            if how == "view_of_transformed" and kind != "log":
+                continue      # a slice of a cumulative transform's value does not determine a slice of its base
             add("C07.transformed_parameter.shared_base.%s[%s]" % (kind, how), "scn_transformed_parameter_shared", (kind, how),
                 "TransformedParameter() returns the log-Jacobian of its current value (base changed through another consumer)")
     for kind in ("log", "cumsumexp", "cumsumsoftplus", "softplus", "cumsum"):
